@@ -5,6 +5,7 @@ import Mathlib.Algebra.BigOperators.Group.Finset.Basic
 import Mathlib.Algebra.BigOperators.Ring.Finset
 import Mathlib.Algebra.BigOperators.Group.Finset.Sigma
 import Mathlib.Algebra.Order.Field.Basic
+import PygyroVerif.Model.Poisson
 import Mathlib.Tactic.Ring
 import Mathlib.Tactic.Linarith
 
@@ -35,5 +36,183 @@ theorem quad_duality {K : Type*} [CommSemiring K] (n : ℕ) (M : ℕ → ℕ →
     _ = ∑ j ∈ range n, I j * c j := by
         refine Finset.sum_congr rfl (fun j hj => ?_)
         rw [← Finset.sum_mul, hw j (Finset.mem_range.mp hj)]
+
+/-! ### the diagonal storage of the assembly loops -/
+section storage
+open PygyroVerif.Poisson
+variable {K : Type*} [Field K]
+
+theorem aliasIdx_add (d k : ℕ) (hk : k ≤ d) : aliasIdx d (d + k) = d - k := by
+  unfold aliasIdx; split_ifs <;> omega
+
+theorem getD_replicate_zero (n a : ℕ) : (List.replicate n (0 : K)).getD a 0 = 0 := by
+  rw [List.getD_eq_getElem?_getD, List.getElem?_replicate]; split_ifs <;> rfl
+
+theorem getD_set (l : List K) (i a : ℕ) (x : K) :
+    (l.set i x).getD a 0 = if i = a ∧ i < l.length then x else l.getD a 0 := by
+  rw [List.getD_eq_getElem?_getD, List.getElem?_set, List.getD_eq_getElem?_getD]
+  by_cases h : i = a
+  · subst h
+    by_cases h2 : i < l.length
+    · simp [h2]
+    · simp [h2]
+  · simp [h]
+
+/-- writes at the distinct positions `d - k`, `k < m` -/
+theorem foldl_set_down (d : ℕ) (v : ℕ → K) (m : ℕ) (hm : m ≤ d + 1) :
+    ((List.range m).foldl (fun st k => st.set (aliasIdx d (d + k)) (v k)) (List.replicate (d + 1) 0)).length = d + 1 ∧
+    ∀ a, a ≤ d → ((List.range m).foldl (fun st k => st.set (aliasIdx d (d + k)) (v k)) (List.replicate (d + 1) 0)).getD a 0
+      = if d - a < m then v (d - a) else 0 := by
+  induction m with
+  | zero => exact ⟨by simp, fun a _ => by simpa using getD_replicate_zero (K := K) (d + 1) a⟩
+  | succ m ih =>
+    obtain ⟨hl, hv⟩ := ih (by omega)
+    simp only [List.range_succ, List.foldl_append, List.foldl_cons, List.foldl_nil]
+    refine ⟨by rw [List.length_set, hl], fun a ha => ?_⟩
+    rw [aliasIdx_add d m (by omega), getD_set, hl, hv a ha]
+    by_cases h : d - m = a
+    · have h1 : d - a = m := by omega
+      rw [if_pos ⟨h, by omega⟩, if_pos (by omega), h1]
+    · rw [if_neg (fun hh => h hh.1)]
+      by_cases h2 : d - a < m
+      · rw [if_pos h2, if_pos (by omega)]
+      · rw [if_neg h2, if_neg (by omega)]
+
+/-- the value `fullRow` leaves at list index `li` -/
+def fullVal (d m : ℕ) (up lo : ℕ → K) (li : ℕ) : K :=
+  if li < d then (if d - li < m then lo (d - li) else 0)
+  else if li = d then (if 0 < m then lo 0 else 0)
+  else (if li - d < m then up (li - d) else 0)
+
+theorem foldl_set_full (d : ℕ) (up lo : ℕ → K) (m : ℕ) (hm : m ≤ d + 1) :
+    ((List.range m).foldl (fun st k => (st.set (d + k) (up k)).set (d * 2 - (d + k)) (lo k))
+      (List.replicate (2 * d + 1) 0)).length = 2 * d + 1 ∧
+    ∀ li, li ≤ 2 * d → ((List.range m).foldl (fun st k => (st.set (d + k) (up k)).set (d * 2 - (d + k)) (lo k))
+      (List.replicate (2 * d + 1) 0)).getD li 0 = fullVal d m up lo li := by
+  induction m with
+  | zero =>
+    refine ⟨by simp, fun li _ => ?_⟩
+    have := getD_replicate_zero (K := K) (2 * d + 1) li
+    simp only [List.range_zero, List.foldl_nil, this, fullVal]
+    split_ifs <;> first | rfl | omega
+  | succ m ih =>
+    obtain ⟨hl, hv⟩ := ih (by omega)
+    simp only [List.range_succ, List.foldl_append, List.foldl_cons, List.foldl_nil]
+    refine ⟨by rw [List.length_set, List.length_set, hl], fun li hli => ?_⟩
+    have e : d * 2 - (d + m) = d - m := by omega
+    rw [e, getD_set, getD_set, List.length_set, hl, hv li hli]
+    unfold fullVal
+    by_cases h1 : d - m = li
+    · rw [if_pos ⟨h1, by omega⟩]
+      by_cases h0 : m = 0
+      · subst h0
+        have : li = d := by omega
+        subst this
+        simp
+      · have hlt : li < d := by omega
+        have h1' : d - li = m := by omega
+        rw [if_pos hlt, if_pos (by omega), h1']
+    · rw [if_neg (fun hh => h1 hh.1)]
+      by_cases h2 : d + m = li
+      · rw [if_pos ⟨h2, by omega⟩]
+        have h3 : ¬ li < d := by omega
+        have h4 : ¬ li = d := by omega
+        have h5 : li - d = m := by omega
+        rw [if_neg h3, if_neg h4, if_pos (by omega), h5]
+      · rw [if_neg (fun hh => h2 hh.1)]
+        by_cases h3 : li < d
+        · simp only [if_pos h3]
+          by_cases h4 : d - li < m
+          · rw [if_pos h4, if_pos (by omega)]
+          · rw [if_neg h4, if_neg (by omega)]
+        · simp only [if_neg h3]
+          by_cases h4 : li = d
+          · simp only [if_pos h4]
+            by_cases h5 : 0 < m
+            · rw [if_pos h5, if_pos (by omega)]
+            · omega
+          · simp only [if_neg h4]
+            by_cases h5 : li - d < m
+            · rw [if_pos h5, if_pos (by omega)]
+            · rw [if_neg h5, if_neg (by omega)]
+
+theorem innerCount_gt (d nb i k : ℕ) (hk : k ≤ d) (h : i + k < nb) : k < innerCount d nb i := by
+  unfold innerCount; omega
+
+theorem innerCount_le (d nb i : ℕ) : innerCount d nb i ≤ d + 1 := by
+  unfold innerCount; omega
+
+theorem symDiag_entry (d nb : ℕ) (term : ℕ → ℕ → K) (r c : ℕ) (hr : r < nb) (hc : c < nb) :
+    diagsEntry d (symDiag d nb term) r c =
+      if c + d < r ∨ r + d < c then 0 else term (min r c) (max r c) := by
+  unfold diagsEntry
+  split_ifs with hb
+  · rfl
+  · have hb' : r ≤ c + d ∧ c ≤ r + d := by omega
+    unfold symDiag symRow
+    have ha : aliasIdx d (c + d - r) = d - (max r c - min r c) := by
+      unfold aliasIdx; split_ifs <;> omega
+    rw [ha, (foldl_set_down d (fun k => term (min r c) (min r c + k)) _ (innerCount_le d nb _)).2 _ (by omega)]
+    have hk : d - (d - (max r c - min r c)) = max r c - min r c := by omega
+    rw [hk, if_pos (innerCount_gt d nb _ _ (by omega) (by omega))]
+    congr 1; omega
+
+theorem fullDiag_entry (d nb : ℕ) (up lo : ℕ → ℕ → K) (r c : ℕ) (hr : r < nb) (hc : c < nb) :
+    diagsEntry d (fullDiag d nb up lo) r c =
+      if c + d < r ∨ r + d < c then 0 else if r < c then up r c else lo c r := by
+  unfold diagsEntry
+  split_ifs with hb hrc
+  · rfl
+  · unfold fullDiag fullRow
+    rw [(foldl_set_full d (fun k => up (min r c) (min r c + k)) (fun k => lo (min r c) (min r c + k)) _
+      (innerCount_le d nb _)).2 _ (by omega)]
+    unfold fullVal
+    have h1 : ¬ c + d - r < d := by omega
+    have h2 : ¬ c + d - r = d := by omega
+    have hmin : min r c = r := by omega
+    rw [if_neg h1, if_neg h2, hmin, if_pos (innerCount_gt d nb r (c + d - r - d) (by omega) (by omega))]
+    beta_reduce; congr 1; omega
+  · unfold fullDiag fullRow
+    rw [(foldl_set_full d (fun k => up (min r c) (min r c + k)) (fun k => lo (min r c) (min r c + k)) _
+      (innerCount_le d nb _)).2 _ (by omega)]
+    unfold fullVal
+    have hmin : min r c = c := by omega
+    by_cases h1 : c + d - r < d
+    · rw [if_pos h1, hmin, if_pos (innerCount_gt d nb c (d - (c + d - r)) (by omega) (by omega))]; beta_reduce; congr 1; omega
+    · have h2 : c + d - r = d := by omega
+      rw [if_neg h1, if_pos h2, hmin, if_pos (innerCount_gt d nb c 0 (by omega) (by omega))]
+      beta_reduce; congr 1; omega
+
+end storage
+
+/-! ### list sums -/
+section sums
+open PygyroVerif.Poisson
+variable {K : Type*} [Field K]
+
+theorem list_range_map_sum {M : Type*} [AddCommMonoid M] (f : ℕ → M) (n : ℕ) :
+    ((List.range n).map f).sum = ∑ j ∈ range n, f j := by
+  induction n with
+  | zero => simp
+  | succ n ih => simp [List.range_succ, Finset.sum_range_succ, ih]
+
+theorem matVec_eq_sum (n : ℕ) (A : ℕ → ℕ → K) (x : ℕ → K) (a : ℕ) :
+    matVec n A x a = ∑ j ∈ range n, A a j * x j := list_range_map_sum _ n
+
+theorem evalAt_eq_sum (nb : ℕ) (V : ℕ → ℕ → K) (cf : ℕ → K) (i : ℕ) :
+    evalAt nb V cf i = ∑ j ∈ range nb, cf j * V i j := list_range_map_sum _ nb
+
+/-- the quadrature sum is the double sum over the cells `se.1 ≤ c < se.2` and the Gauss points -/
+theorem quadSum_eq_sum (Q : Quad K) (a n : ℕ) (g : ℕ → ℕ → K) :
+    quadSum Q (a, a + n) g = ∑ c ∈ range n, ∑ q ∈ range Q.nq, Q.w q * Q.mult * g (a + c) q := by
+  unfold quadSum
+  simp only [Nat.add_sub_cancel_left]
+  induction n with
+  | zero => simp
+  | succ n ih =>
+    rw [List.range'_concat, List.flatMap_append, List.sum_append, ih, Finset.sum_range_succ]
+    simp [list_range_map_sum]
+
+end sums
 
 end PygyroVerif.PoissonLemmas
